@@ -589,7 +589,9 @@ def _indexed_cursor(ck, p):
                     ck.undecided(rule, key, f.loc(t["ln"]), "the loop indexes with `%s`, which only grows, and never compares it with anything; it only hands it to %s - whether an out-of-range cursor makes one of these leave the loop is beyond this rule; if not, a text in which the awaited element never comes runs the index off the end and panics" % (name, sorted({c for c, _ in calls_with})))
                 else:
                     ck.refuted(rule, key, f.loc(t["ln"]), "the loop indexes a slice with `%s`, which only grows, and no test in the loop looks at `%s`: every exit depends on the content of the elements, so a text in which that content never comes (markup left unterminated while it is typed) runs the index off the end and panics" % (name, name))
-    ck.floor(rule, "loops that index a slice with a monotone cursor", n, 2)
+    # no floor: rewriting such a loop as an iterator chain removes the instance and the obligation with it (the loop
+    # census of R-C01-loops keeps its own floor)
+    ck.extra["indexed_cursor_loops"] = n
 
 
 def _oor_goes_on(p, f, cfg, body, assert_bb, carriers):
